@@ -248,7 +248,7 @@ class Prog:
                                    'log': repr(self.log[-1])[:300] if len(self.log) > nlog else ''})
                 self.aborted = True
                 return True
-            if 'read-only' in str(e):
+            if 'read-only' in str(e) and self.readonly_legs:
                 self.violation('%s:writes-into-shared-leg-array@%s' % (name, where),
                                'write into a (read-only) slices/charges array of a shared leg: %s' % str(e)[:200])
                 return True
